@@ -10,6 +10,7 @@ import (
 	"github.com/cloudwego/gopkg/protocol/thrift/base"
 
 	"verif/mc"
+	"verif/ref"
 )
 
 // C15 — no-copy write path produces the same stream as the copying path.
@@ -58,7 +59,8 @@ type c15Case struct {
 	Spare int    `json:"spare"` // spare capacity of the buffer beyond its length
 	Extra int    `json:"extra"` // the buffer is this much LONGER than the value (a struct embedded in a larger frame)
 	W     bool   `json:"direct_writer"`
-	Map   int    `json:"map"` // 0 nil, 1 empty, 2 one entry (Lens[3], Lens[4])
+	Map   int    `json:"map"`                          // 0 nil, 1 empty, 2 one entry (Lens[3], Lens[4]), 3 Lens[3] entries whose values have Lens[4]+i bytes
+	After int    `json:"after_failed_write,omitempty"` // first, this many writes into a too-short buffer are attempted (they panic; the caller recovers)
 }
 
 func c15Val(n, salt int) string {
@@ -145,6 +147,11 @@ func c15One(c *mc.Ctx, k c15Case) {
 				kk, vv := c15Val(k.Lens[3], 3), c15Val(k.Lens[4], 4)
 				vals = append(vals, kk, vv)
 				ex = map[string]string{kk: vv}
+			case 3:
+				ex = map[string]string{}
+				for i := 0; i < k.Lens[3]; i++ {
+					ex[fmt.Sprintf("key-%03d", i)] = c15Val(k.Lens[4]+i, 5+i)
+				}
 			}
 			switch k.Kind {
 			case "base":
@@ -163,7 +170,7 @@ func c15One(c *mc.Ctx, k c15Case) {
 			cn := m.FastWriteNocopy(cb, nil)
 			if fw, ok := m.(interface{ FastWrite([]byte) int }); ok {
 				cb2 := make([]byte, total)
-				if n2 := fw.FastWrite(cb2); n2 != cn || !bytes.Equal(cb2[:n2], cb[:cn]) {
+				if n2 := fw.FastWrite(cb2); n2 != cn || (k.Map != 3 && !bytes.Equal(cb2[:n2], cb[:cn])) { // (several map entries: the order may differ)
 					bad("nil-writer-differs", "FastWrite and FastWriteNocopy(nil) differ")
 					return
 				}
@@ -174,6 +181,15 @@ func c15One(c *mc.Ctx, k c15Case) {
 			}
 			copying = cb[:cn]
 			write = func(buf []byte) int { return m.FastWriteNocopy(buf, w) }
+			for i := 0; i < k.After; i++ {
+				// the struct "grew" after its length was taken: the buffer is too short, the write panics, the caller recovers
+				for _, sl := range []int{total / 2, 64, 24, 9} {
+					if sl < total {
+						short := make([]byte, sl)
+						mc.Try(func() { m.FastWriteNocopy(short, &recWriter{buf: short}) })
+					}
+				}
+			}
 		}
 		backing := bytes.Repeat([]byte{0xCC}, total+k.Extra+k.Spare)
 		buf := backing[: total+k.Extra : total+k.Extra+k.Spare]
@@ -225,17 +241,31 @@ func c15One(c *mc.Ctx, k c15Case) {
 				return
 			}
 		}
-		if !bytes.Equal(got, copying) {
+		if k.Map == 3 {
+			// several map entries: Go's map order differs between two encodings; compare the decoded structs
+			gv, gn, gok := ref.Decode(got, ref.STRUCT)
+			cv, cn2, cok := ref.Decode(copying, ref.STRUCT)
+			if !gok || !cok || gn != len(got) || cn2 != len(copying) || len(got) != len(copying) || len(gv.F) != len(cv.F) {
+				bad("stream-differs", "after splicing, the stream (%d bytes, well-formed %v) does not hold the same struct as the copying path (%d bytes)", len(got), gok, len(copying))
+				return
+			}
+			for i := range gv.F {
+				if gv.F[i].ID != cv.F[i].ID || !valueEqUnordered(gv.F[i].V, cv.F[i].V) {
+					bad("stream-differs", "after splicing, field %d of the stream differs from the copying path (map entries compared as a set)", gv.F[i].ID)
+					return
+				}
+			}
+		} else if !bytes.Equal(got, copying) {
 			bad("stream-differs", "after splicing the directly written pieces in at the indicated positions the stream differs from the copying path at +%d (len %d vs %d)", firstDiff(got, copying), len(got), len(copying))
 			return
 		}
-		if !k.W && !bytes.Equal(buf[:n], copying) {
+		if !k.W && k.Map != 3 && !bytes.Equal(buf[:n], copying) {
 			bad("nil-writer-differs", "without a direct writer the two paths are not byte-identical")
 			return
 		}
 		// a second writer that follows the convention of network buffers (the splice position is counted from the END of
 		// the allocated buffer: remainCap bytes remain after it) must agree with the independent splice
-		if k.W && k.Spare == 0 && k.Extra == 0 {
+		if k.W && k.Spare == 0 && k.Extra == 0 && k.Map != 3 {
 			nw := &endWriter{}
 			nb := nw.Malloc(total)
 			rw.recs, rw.buf = nil, nil
@@ -347,6 +377,28 @@ func c15Run(c *mc.Ctx) {
 			}
 		}
 	}
+	// many large values in one struct (more direct writes than any fixed-size queue or budget), and writes that follow a
+	// failed (panicked, recovered) write of the same type
+	for _, n := range []int{2, 7, 8, 9, 15, 16, 17, 18, 33, 70} {
+		for _, base := range []int{4096, 5000} {
+			if !c.Mine() {
+				continue
+			}
+			c.Distinct("many", n, base)
+			for _, kind := range []string{"base", "baseresp"} {
+				for _, after := range []int{0, 1, 3} {
+					c15One(c, c15Case{Kind: kind, Lens: []int{4097, 3, 3, n, base}, Map: 3, W: true, After: after})
+					c15One(c, c15Case{Kind: kind, Lens: []int{3, 3, 3, n, base}, Map: 3, W: false, After: after})
+				}
+			}
+		}
+	}
+	for _, after := range []int{1, 2} {
+		if c.Mine() {
+			c15One(c, c15Case{Kind: "base", Lens: []int{4096, 3, 4097, 4095, 4096}, Map: 2, W: true, After: after})
+			c15One(c, c15Case{Kind: "baseresp", Lens: []int{4097, 0, 0, 5000, 4096}, Map: 2, W: true, After: after})
+		}
+	}
 	c.Sample("struct", c15Case{Kind: "base", Lens: []int{4096, 3, 4097, 4095, 4096}, Map: 2, W: true, Spare: 64})
 	c.Done("Base with LogID/Caller/Addr/map key/map value each in {3,4095,4096,4097} bytes (4^5, plus nil and empty map), BaseResp (4^3), ApplicationException; nil and recording writer; exact and spare capacity")
 }
@@ -355,7 +407,7 @@ func init() {
 	Register(&Check{
 		ID: "C15", Level: "exploration",
 		Rule: "WriteStringNocopy/WriteBinaryNocopy for EVERY length 0..3*4096+1 x {nil, recording} direct writer x buffer with exact / spare capacity; all sequences of <= 3 calls over lengths {0,1,4095,4096,4097,9000}; Base (4^5 field-length combinations + nil/empty map), BaseResp, ApplicationException; oracle = independent splice of the linear bytes and the recorded (slice, remainCap) pairs compared with the copying path; distinct = distinct length tuples",
-		Assumptions: []string{"struct maps have at most one entry so that the copying path is byte-comparable (Go map order is not owned)",
+		Assumptions: []string{"where a struct map has several entries the two streams are compared as decoded structs with maps as sets (Go map order is not owned)",
 			"'the positions the library indicates' is read as a streaming consumer reads it: when a direct write is announced, the linear bytes before the indicated position are already final (the buffer may be longer than the value: a struct inside a larger frame)"},
 		Run:    c15Run,
 		Replay: func(c *mc.Ctx, sub string, raw json.RawMessage) { replayAs(raw, func(k c15Case) { c15One(c, k) }) },
